@@ -16,7 +16,7 @@ import warnings
 import zipfile
 
 KINDS = ["module_linear", "module_seq", "module_buffers", "state_dict", "nested", "tensor", "zero_size",
-         "shared", "dtypes", "noncontig", "big_nested", "big_tensor"]
+         "shared", "dtypes", "noncontig", "big_nested", "big_tensor", "many_memo"]
 REFUSALS = ["legacy_pickle", "unrecognised_zip", "model_archive"]
 
 
@@ -120,6 +120,9 @@ def make_obj(kind, oseed):
         return [x.t(), x[:, ::2], x[1:3, 2:5], x.unsqueeze(0).expand(2, 4, 6)]
     if kind == "big_tensor":
         return {"emb": rt(r.choice([48, 64, 100]), 70), "ids": rt(5000, dtype=torch.int64)}
+    if kind == "many_memo":
+        # more than 256 memo entries in data.pkl (LONG_BINPUT / LONG_BINGET indices): 48+ tensors
+        return {f"layer{i}.{p}": rt(r.randrange(1, 3), r.randrange(1, 3)) for i in range(30) for p in ("w", "b")}
     if kind == "big_nested":
         return [{"i": i, "w": rt(r.randrange(1, 4), r.randrange(1, 4)), "tags": ["a" * i, (i, None)]} for i in range(12)]
     raise ValueError(kind)
